@@ -93,7 +93,15 @@ fn check_d<const D: usize>(c: &Phys, ctx: &mut Ctx) -> Result<(), Failure> {
     for (k, &e) in order.iter().enumerate() {
         let want = 0.5f64.powi(k as i32);
         if !((log.x0[e] - want).abs() <= 1e-9 * want) {
-            ctx.label("skip:halving-pattern-not-exact(omega-too-small-for-2^-omega)");
+            // xi_j = 2^(-omega(g_j)) was chosen along the walk the ORACLE predicts; if no edge choice of that walk is
+            // within rounding distance of a boundary the sampler must follow the same walk and the parameters must be
+            // 1, 1/2, 1/4, ... (every omega >= 1/64 here). Anything else means the walk or the stored omegas are corrupted.
+            let sim = path::simulate(ne, &omega, &j, &c.x, 64.0 * ne as f64 * EPS);
+            let min_om = omega.iter().skip(1).take(g.full() - 1).cloned().fold(f64::INFINITY, f64::min);
+            if sim.min_gap > 256.0 * ne as f64 * EPS && min_om >= 1e-6 {
+                fail!("sector-walk-corrupted", "with xi_j = 2^(-omega_j) along the unambiguous walk {:?} the unrescaled parameters must be 1, 1/2, 1/4, ... but the log shows {:?}; case {c:?}", sim.order, log.x0);
+            }
+            ctx.label("skip:walk-differs-from-prediction(edge choice within rounding distance of a boundary)");
             return Ok(());
         }
     }
